@@ -5,7 +5,7 @@ import os, sys, json, subprocess, tempfile, shutil, time
 import main as M
 
 def run_range(sc, prop, seed, frm, to, procs, out):
-    env = dict(os.environ, VERIF_PROCS=str(procs))
+    env = dict(os.environ, VERIF_PROCS=str(procs // 1000 if procs >= 1000 else procs))
     return subprocess.Popen([sc.bin, "-test.run", "TestWorker", "-test.timeout", "0", "-mode", "explore", "-prop", prop, "-seed", str(seed),
                              "-from", str(frm), "-to", str(to), "-samples", "0", "-out", out], env=env, stdout=subprocess.DEVNULL, stderr=subprocess.DEVNULL)
 
@@ -31,9 +31,14 @@ def main(argv):
         for prop in props:
             outs = []
             procs = []
-            # 6 processes per property: GOMAXPROCS 1/4/16 x seeds 1,2 -> each (seed) thrice
+            # 6 processes per property and pass: each seed thrice, all running at once (load).
+            # Workers always run with one P (as in the checks); VERIF_SELFTEST_PROCS=1,4,16 also
+            # compares other GOMAXPROCS values (informational: goroutines that become runnable
+            # in the same scheduler step then really run in parallel).
+            gps = [int(x) for x in os.environ.get("VERIF_SELFTEST_PROCS", "1,1,1").split(",")]
             for seed in (1, 2):
-                for gp in (1, 4, 16):
+                for gi, gp in enumerate(gps):
+                    gp = gp * 1000 + gi
                     out = os.path.join(sc.dir, "st-%s-%d-%d.jsonl" % (prop, seed, gp))
                     outs.append((seed, gp, out))
                     procs.append(run_range(sc, prop, seed, 0, n, gp, out))
